@@ -6,6 +6,7 @@ cd "$(dirname "$0")"
 /venv/bin/python harness/build_repo.py
 /venv/bin/python harness/extract.py
 /venv/bin/python harness/extract_algebraic.py
+/venv/bin/python harness/extract_quadpack.py
 cd lean
 lake build driver
 lake build BezierVerif
